@@ -296,21 +296,24 @@ def run_case(res, k, hist_steps):
       fixes.append("cvel")
     if nan:
       fixes.append("efcJ")
-    applied, cleared = [], False
-    for g in fixes:
-      applied.append(g)
-      bad2, first2 = experiment(np.random.default_rng(seed2), mm, m, st, nan, hist_steps, fix=tuple(applied))
-      if not bad2 and first2 is None:
-        cleared = True
+    # smallest set of known causes whose neutralisation clears the difference
+    import itertools
+
+    cleared = None
+    for r in range(1, len(fixes) + 1):
+      for sub in itertools.combinations(fixes, r):
+        bad2, first2 = experiment(np.random.default_rng(seed2), mm, m, st, nan, hist_steps, fix=sub)
+        if not bad2 and first2 is None:
+          cleared = sub
+          break
+      if cleared:
         break
-    data["cleared_by_neutralising"] = applied if cleared else None
-    if cleared and "cvel" in applied and (len(applied) == 1 or not nan):
+    data["cleared_by_neutralising"] = list(cleared) if cleared else None
+    if cleared and "cvel" in cleared:
       out.append(("C12:constraint:stale-cvel:connect-weld", f"step() differs between a fresh and a used Data with the same integration state (first differing output {first}); cleared when d.cvel/d.cdof_dot are made equal", data))
-    elif cleared and applied[-1] == "efcJ":
-      if "cvel" in applied:
-        out.append(("C12:constraint:stale-cvel:connect-weld", "as above (NaN stream)", data))
+    if cleared and "efcJ" in cleared:
       out.append(("C12:solver:nan-stale-efc-J-rows:dense", f"NaN left in efc.J rows >= nefc makes step() return NaN (first differing output {first}); cleared when efc.J is clean", data))
-    else:
+    if not cleared:
       out.append((f"C12:unexplained:{first or bad[0]}", f"step()/forward() differ between a fresh and a poisoned Data with the same integration state: state fields {bad}, first differing forward output {first}", data))
   return out
 
